@@ -677,10 +677,23 @@ def _is_for_in_type(src: Source, k: int) -> bool:
     return n is not None and src.toks[n].text == "<"
 
 
-def fragment(fn_text: str, path: str, kind: str, ordinal: int) -> str:
-    """Return the text of the ordinal-th `kind` statement (while/loop/for/match/if) in the function body, verbatim."""
+def fragment(fn_text: str, path: str, kind: str, ordinal) -> str:
+    """Return the text of the ordinal-th `kind` statement (while/loop/for/match/if) in the function body, verbatim.
+    kind == "let": `ordinal` is the NAME of the bound variable; the statement `let NAME ... ;` is returned."""
     src = Source(path, fn_text)
     toks = src.toks
+    if kind == "let":
+        hits = []
+        for k in src.sig:
+            if toks[k].kind == "ident" and toks[k].text == "let":
+                n = src.next_sig(k)
+                if n is not None and toks[n].text == "mut":
+                    n = src.next_sig(n)
+                if n is not None and toks[n].text == str(ordinal):
+                    hits.append(k)
+        if len(hits) != 1:
+            raise ExtractError(f"{path}: anchor lost: `let {ordinal}` found {len(hits)} times")
+        return src.text[toks[hits[0]].start:toks[_stmt_end(src, hits[0])].end]
     hits = [k for k in src.sig if toks[k].kind == "ident" and toks[k].text == kind and not _is_for_in_type(src, k)]
     if ordinal < 1 or ordinal > len(hits):
         raise ExtractError(f"{path}: anchor lost: {kind}#{ordinal} not found ({len(hits)} present)")
